@@ -12,7 +12,9 @@ TOK(t)  == /\ \A j \in 1..Len(t.rows) : WellFormed(t.rows[j], Len(t.rows[j]) - 1
 TGrp(t) == Grp(TRows(t), t.r)
 
 \* dyadic numbers <<num, e>> = num / 2^e
-DyEq(a, num, e) == a[1] * (2 ^ e) = num * (2 ^ a[2])
+DyEq(a, num, e) ==       \* a[1] / 2^a[2] = num / 2^e, arranged so that no power beyond 2^30 is ever formed
+    IF a[2] <= e THEN (IF e - a[2] > 30 THEN a[1] = 0 /\ num = 0 ELSE a[1] * (2 ^ (e - a[2])) = num)
+    ELSE (IF a[2] - e > 30 THEN a[1] = 0 /\ num = 0 ELSE a[1] = num * (2 ^ (a[2] - e)))
 
 \* ---- C05: every tableau the library hands back is valid (whatever produced it)
 PreValid  == Has("pre") => TOK(Rec.pre)
@@ -141,6 +143,11 @@ KindOK(kinds) == (Rec.op = "steps" /\ Has("entries")) =>
     LET S0 == TGrp(Rec.pre)  n == Len(Rec.pre.rows) \div 2 IN
     \A j \in 1..Len(Rec.entries) : Rec.entries[j].kind \in kinds => StepSemOK(S0, Rec.pre.r, Rec.entries[j], n)
 StepsValid == (Rec.op \in {"steps", "walk"} /\ Has("entries")) => \A j \in 1..Len(Rec.entries) : TOK(Rec.entries[j].post)
+\* ... and every row (standby rows and destabilizers too) keeps a Hermitian phase: to_map() / diagonalize() turn ALL rows into
+\* the images of a Clifford map, which is then applied to other states (pre-tableaux of the scenarios have Hermitian rows)
+AllHerm(t) == \A j \in 1..Len(t.rows) : t.rows[j][Len(t.rows[j])] \in {0, 2}
+StepsHermOK == (Rec.op \in {"steps", "walk"} /\ Has("entries") /\ AllHerm(Rec.pre)) =>
+    \A j \in 1..Len(Rec.entries) : (Rec.entries[j].kind \notin {"set_r", "copy"}) => AllHerm(Rec.entries[j].post)
 StepsRotOK == KindOK({"rot", "rotm"})
 StepsTransformOK == KindOK({"tf"})
 StepsGateOK == KindOK({"gate", "circ"})
